@@ -21,6 +21,9 @@ P_c03 == [main |-> <<O("new", 3, 0), O("rbulk", 1, 3), O("sync", 0, 0), O("quiet
 \* C07 known finding: repeated single submissions into a (re-)parked pool
 P_idle_fq3 == [main |-> <<O("new", 2, 0), O("idle", 0, 0), O("fq", 1, 0), O("idle", 0, 0), O("fq", 2, 0),
                           O("idle", 0, 0), O("fq", 3, 0), O("quiet", 0, 0), O("del", 0, 0)>>]
+\* placed scheduling (steal rings) from an idle pool, no back-stop
+P_idle_placed == [main |-> <<O("new", 2, 0), O("idle", 0, 0), O("pfq", 1, 0), O("quiet", 0, 0), O("del", 0, 0)>>]
+P_idle_placed3 == [main |-> <<O("new", 3, 0), O("idle", 0, 0), O("pfq", 1, 0), O("placed", 2, 0), O("quiet", 0, 0), O("del", 0, 0)>>]
 \* small configurations for the quick tier (no time-outs: parked workers stay parked)
 P_q2_basic == [main |-> <<O("new", 2, 0), O("fq", 1, 0), O("del", 0, 0)>>]
 P_q2_c08 == [main |-> <<O("new", 1, 0), O("rbulk", 1, 1), O("resize", 2, 0), O("quiet", 0, 0), O("del", 0, 0)>>]
